@@ -73,6 +73,7 @@ var xlWhitelist = []xlFunc{
 	{Pkg: "pipeline", Name: "nonEmpty", Lean: "nonEmpty"},
 	{Pkg: "pipeline", Name: "safeBoolDeref", Lean: "safeBoolDeref"},
 	{Pkg: "pipeline", Name: "safeStrListSize", Lean: "safeStrListSize"},
+	{Pkg: "pipeline", Name: "safeCopyIntSlice", Lean: "safeCopyIntSlice"},
 }
 
 // regular expressions: pattern text -> GoPrelude function deciding MatchString
